@@ -490,7 +490,10 @@ int EGLPNUM_TYPENAME_ILLsimplex_retest_psolution (
 
 	if (phase == PRIMAL_PHASEII)
 	{
-		if (fbid < bid - PARAM_PRIMAL_RESOLVEGAP)
+		/* partial pricing only keeps the reduced costs of the columns it looked
+		 * at (never those of fixed columns): the final answer needs all of them */
+		if (fbid < bid - PARAM_PRIMAL_RESOLVEGAP ||
+				(p != NULL && p->p_strategy == MULTI_PART_PRICING))
 		{
 			EGLPNUM_TYPENAME_ILLfct_compute_piz (lp);
 			EGLPNUM_TYPENAME_ILLfct_compute_dz (lp);
